@@ -7,18 +7,31 @@ HERE = os.path.dirname(os.path.abspath(__file__))
 
 
 def build(repo, outdir):
-    """Returns (plain exe, ubsan+asan exe)."""
+    """Returns (plain exe, ASan exe [one process, aborts on the first error], UBSan exe [one forked child per line])."""
     src = os.path.join(HERE, "leb_harness.c")
     inc = ["-I" + os.path.join(repo, "w2c2")]
     plain = os.path.join(outdir, "leb_harness")
-    san = os.path.join(outdir, "leb_harness_san")
+    asan = os.path.join(outdir, "leb_harness_asan")
+    ubsan = os.path.join(outdir, "leb_harness_ubsan")
     for exe, flags in ((plain, ["-O1"]),
-                       (san, ["-O1", "-g", "-DMARK_LINES", "-fsanitize=address,undefined", "-fsanitize-recover=undefined",
-                              "-fno-omit-frame-pointer"])):
+                       (asan, ["-O1", "-g", "-fsanitize=address", "-fno-omit-frame-pointer"]),
+                       (ubsan, ["-O1", "-g", "-DMARK_LINES", "-fsanitize=undefined", "-fsanitize-recover=undefined"])):
         p = subprocess.run(["gcc", "-w"] + flags + inc + ["-o", exe, src], stdout=subprocess.PIPE, stderr=subprocess.STDOUT, text=True)
         if p.returncode != 0:
             raise RuntimeError("leb_harness build failed: " + p.stdout[-1500:])
-    return plain, san
+    return plain, asan, ubsan
+
+
+def run_asan(exe, lines):
+    """Returns (answers, fatal) — fatal = (index of the offending line, first ASan line) or None."""
+    env = dict(os.environ)
+    env["ASAN_OPTIONS"] = "detect_leaks=0"
+    p = subprocess.run([exe], input="\n".join(lines) + "\n", stdout=subprocess.PIPE, stderr=subprocess.PIPE, text=True, timeout=1800, env=env)
+    out = p.stdout.splitlines()
+    if p.returncode == 0 and len(out) == len(lines):
+        return out, None
+    msg = [ln for ln in p.stderr.splitlines() if "ERROR: AddressSanitizer" in ln or "SUMMARY" in ln]
+    return out, (len(out), (msg[0] if msg else f"exit status {p.returncode}")[:300])
 
 
 def run_plain(exe, lines):
@@ -29,7 +42,7 @@ def run_plain(exe, lines):
     return out
 
 
-def run_san(exe, lines):
+def run_ubsan(exe, lines):
     """Returns (answers, {line index (0-based): [ubsan message, …]}, fatal or None)."""
     env = dict(os.environ)
     env["ASAN_OPTIONS"] = "detect_leaks=0:abort_on_error=0"
